@@ -130,6 +130,9 @@ type Trial struct {
 	wg      sync.WaitGroup // executor tasks
 	tasks   atomic.Int64
 	hookHit [64]atomic.Int64
+	focus   int // focus site + 2 (0 = not computed yet); set before the workers start
+	tableLoaded int
+	sleeping    atomic.Int32
 	statusAtWrite [4]atomic.Int64 // drain status seen by writers between their load and their CAS
 	rngCtr  atomic.Uint64
 	stalled atomic.Bool
@@ -196,6 +199,21 @@ func installDefaultExecutor() {
 
 func (t *Trial) rnd() uint64 { return core.Mix(t.Cfg.Seed ^ t.rngCtr.Add(1)) }
 
+// focusSite is the yield point this trial concentrates its delays on (-1: none).
+func (t *Trial) focusSite() int {
+	if t.focus != 0 {
+		return t.focus - 2
+	}
+	f := -1
+	h := core.Mix(t.Cfg.Seed ^ 0xf0c5)
+	n := uint64(len(otter.VerifSiteNames()))
+	if h%3 == 0 {
+		f = int((h >> 8) % n)
+	}
+	t.focus = f + 2
+	return f
+}
+
 // hook is the yield-point function.
 func (t *Trial) hook(site int) {
 	if site < len(t.hookHit) {
@@ -206,13 +224,29 @@ func (t *Trial) hook(site int) {
 			t.statusAtWrite[st].Add(1)
 		}
 	}
-	if t.Cfg.DelayPerM == 0 {
+	// the sleeper of churn trials (see churn): its writes sleep between loading the table pointer and
+	// taking the bucket lock, long enough for whole resizes to happen in between
+	if site == t.tableLoaded && t.sleeping.Load() == 1 {
+		if r := t.rnd(); r%3 == 0 {
+			time.Sleep(time.Duration((r>>24)%400+30) * time.Microsecond)
+		}
+		return
+	}
+	// a third of the trials concentrate on one yield point (40 % of its visits delay)
+	pm := t.Cfg.DelayPerM
+	if site == t.focusSite() {
+		if pm < 400 {
+			pm = 400
+		}
+	}
+	if pm == 0 {
 		return
 	}
 	r := t.rnd()
-	if int(r%1000) >= t.Cfg.DelayPerM {
+	if int(r%1000) >= pm {
 		return
 	}
+
 	switch (r >> 20) % 4 {
 	case 0:
 		runtime.Gosched()
@@ -303,6 +337,8 @@ func NewTrial(cfg TrialCfg) (*Trial, error) {
 		return nil, err
 	}
 	t.Cache = c
+	t.focusSite() // computed before any worker runs
+	t.tableLoaded = siteIndex("map.compute.tableLoaded")
 	return t, nil
 }
 
@@ -582,12 +618,39 @@ func (t *Trial) Run() {
 	}
 	var cwg sync.WaitGroup
 	if cfg.Churn > 0 {
+		var churnDone atomic.Bool
 		cwg.Add(1)
 		go func() {
 			defer cwg.Done()
+			defer churnDone.Store(true)
 			<-start
 			t.churn(&stop, core.NewRng(core.Derive(cfg.Seed, 18)))
 		}()
+		if cfg.SizeKind == 0 && cfg.ExpiryTTL == 0 {
+			// the sleeper: the only goroutine that uses its key; every write of it is read back at once.
+			// Its writes are held up right after they loaded the table pointer (see hook) while the churn
+			// grows and shrinks the table.
+			cwg.Add(1)
+			go func() {
+				defer cwg.Done()
+				<-start
+				const k = 2_000_000
+				for i := 1; !churnDone.Load() && i < 100000; i++ {
+					if i%5 == 0 {
+						t.sleeping.Store(1) // (whoever passes the yield point meanwhile sleeps too: only now and then)
+					}
+					t.Cache.Set(k, i)
+					t.sleeping.Store(0)
+					if v, ok := t.Cache.GetIfPresent(k); !ok || v != i {
+						msg := fmt.Sprintf("key %d was set to %d by the only goroutine that uses it (no bound, no expiration; the call was held up between loading the table pointer and taking the bucket lock while the table was resized) and GetIfPresent right after returns (%d,%v)", k, i, v, ok)
+						t.churnViolation.CompareAndSwap(nil, &msg)
+						break
+					}
+					t.churnReads.Add(1)
+				}
+				t.Cache.Invalidate(k)
+			}()
+		}
 	}
 	if cfg.Stats {
 		cwg.Add(1)
